@@ -1,11 +1,13 @@
 (* C16 - rendered results are faithful to the numbers and consistent across views.
    Statements about the hand model model/Render.v (exact decimal rendering of the rational a float denotes), tied to
    utils.format_num / DictsReprMixin by exact string equality (tools/props/C16.py).
-   Named partial (validated, not proved): the text produced from the rounded integer (digit generation, grouping,
-   exponent layout) parses back to that integer; floor_log10 finds the decade within its +-400 search range; the float
-   operations round(), math.log10 and val * 100 behave like the exact ones for sig <= 6. *)
+   The digit layer (proofs/C16_digits.v): the decimal text of `digits` denotes its number, zero padding and "_" grouping
+   preserve it, so the two fields of the fixed-point text denote exactly m / 10^p for the rounded integer m.
+   Named partial (validated, not proved): the same for the exponent layout (mantissa and exponent fields are produced by
+   the same `digits`, the layout itself is tied by string equality only); floor_log10 finds the decade within its +-400
+   search range; the float operations round(), math.log10 and val * 100 behave like the exact ones for sig <= 6. *)
 From Coq Require Import ZArith String Ascii List Bool.
-From TT Require Import model.Render proofs.C16_render.
+From TT Require Import model.Render proofs.C16_render proofs.C16_digits.
 Import ListNotations.
 Local Open Scope Z_scope.
 
@@ -56,6 +58,19 @@ Example C16_nonvacuous :
   format_num_model (FNum (-1234) 100) 2 true = "-12%"%string.
 Proof. repeat split; vm_compute; reflexivity. Qed.
 
+(* the text of a non-negative integer is a digit string that parses back to it, with no leading zero beyond "0" *)
+Theorem C16_digits_denote_their_number n : 0 <= n ->
+  all_digits (digits n) /\ parse_nat (digits n) = n /\ (0 < str_len (digits n))%nat /\
+  n < 10 ^ Z.of_nat (str_len (digits n)) /\ (str_len (digits n) = 1%nat \/ 10 ^ (Z.of_nat (str_len (digits n)) - 1) <= n).
+Proof. exact (digits_spec n). Qed.
+(* fixed-point text "I.F" of the rounded integer m with p decimals: I (after removing the "_" grouping) parses to m / 10^p,
+   F has exactly p digits and parses to m mod 10^p - the text denotes m / 10^p exactly *)
+Theorem C16_fixed_text_denotes_rounded_value m p : 0 <= m -> (0 < p)%nat ->
+  let ip := m / pow10 p in let fp := m mod pow10 p in
+  let frac := pad_zeros (p - str_len (digits fp)) (digits fp) in
+  parse_nat (ungroup (group3 (digits ip))) = ip /\ parse_nat frac = fp /\ str_len frac = p /\ ip * pow10 p + fp = m.
+Proof. exact (fixed_fields_denote m p). Qed.
+
 Print Assumptions C16_rounding_is_correct.
 Print Assumptions C16_ties_go_to_even.
 Print Assumptions C16_relative_error_bound.
@@ -66,3 +81,5 @@ Print Assumptions C16_cell_width.
 Print Assumptions C16_header_fits.
 Print Assumptions C16_html_has_no_raw_markup.
 Print Assumptions C16_html_cells_round_trip.
+Print Assumptions C16_digits_denote_their_number.
+Print Assumptions C16_fixed_text_denotes_rounded_value.
